@@ -81,9 +81,27 @@ Definition expect (before : blist) (ds : list delta) (after : blist) : bool :=
   forallb (fun k => bget ma k =? bget mb k + dsum k) (map fst before ++ map fst after ++ map fst ds)
   && forallb (fun p => 0 <=? snd p) after.
 
+(* a transfer that can be paid: positive amount, two different addresses, the amount covered, a fee that can be computed
+   (a rate for a fee in another currency)
+   and - when one is due - a fee address and a sender who can pay it after the amount *)
+Definition transfer_payable (env : tenv) (st : tstate) (before : blist) (s r : N) (a : Z) : bool :=
+  let mb : bals := list_to_map before in
+  let f := ts_fee st in
+  (0 <? a) && negb (N.eqb s r) && (a <=? bget mb (tok s)) &&
+  negb (f_set f && negb (bool_decide (is_Some (ts_feeaddr st)))) && negb (f_set f && N.eqb (f_cur f) 0) &&
+  (* a fee configured in a currency without a rate cannot be computed for anybody (the implementation computes it before
+     it looks at the users): such a configuration may refuse every transfer *)
+  (negb (f_set f) || (f_share f =? 0) || N.eqb (f_cur f) (e_sym env) || bool_decide (is_Some (find_rate (ts_rates st) DBuy (f_cur f)))) &&
+  match spec_fee env st a s r with
+  | Some (fe, c) => (fe <=? 0) || (if N.eqb (f_cur f) (e_sym env) then fe <=? bget mb (tok s) - a else fe <=? bget mb (allowed s c))
+  | None => false
+  end.
+
 Definition check_step (env : tenv) (st : tstate) (o : top) (before after : blist) (e : option err) : bool :=
   match e with
   | Some x => expect before [] after &&
+              (* a transfer is refused only when it cannot be paid (limits are limits of deals, not of transfers) *)
+              match o with OTransfer s r a => negb (transfer_payable env st before s r a) | _ => true end &&
               (* a deal refused for its limits really lies outside the configured limits *)
               match x, o with
               | ELimits, OBuy _ a cur => match find_rate (ts_rates st) DBuy cur with Some r => negb (in_limit r a) | None => true end
